@@ -40,6 +40,65 @@ theorem evalBin_panic {op : BinOp} {x y : Val} (h : evalBin op x y = .panic) :
          exact ⟨by simp, _, rfl, by simpa using hz⟩
        · exact absurd h (chk_ne_panic _))
 
+/-- an expression without calls, `/` and `%` does not panic. -/
+theorem noPanic_eval : ∀ (e : Expr), NoPanic e → ∀ (fuel : Nat) (P : Prog) (env : Env), evalE fuel P env e ≠ .panic := by
+  intro e
+  induction e with
+  | lit n => intro _ fuel P env; cases fuel <;> simp [evalE, chk_ne_panic]
+  | tt => intro _ fuel P env; cases fuel <;> simp [evalE]
+  | ff => intro _ fuel P env; cases fuel <;> simp [evalE]
+  | var x => intro _ fuel P env; cases fuel <;> simp [evalE]; split <;> simp
+  | paren e ih => intro h fuel P env; cases fuel with
+    | zero => simp [evalE]
+    | succ n => simp only [evalE]; exact ih h n P env
+  | neg e ih =>
+    intro h fuel P env
+    cases fuel with
+    | zero => simp [evalE]
+    | succ n =>
+      have := ih h n P env
+      simp only [evalE]
+      intro hc
+      split at hc
+      · exact chk_ne_panic _ hc
+      · cases hc
+      · exact this hc
+  | not e ih =>
+    intro h fuel P env
+    cases fuel with
+    | zero => simp [evalE]
+    | succ n =>
+      have := ih h n P env
+      simp only [evalE]
+      intro hc
+      split at hc
+      · cases hc
+      · cases hc
+      · exact this hc
+  | bin op a b iha ihb =>
+    intro h fuel P env
+    simp only [NoPanic] at h
+    cases fuel with
+    | zero => simp [evalE]
+    | succ n =>
+      have ha := iha h.2.2.1 n P env
+      have hb := ihb h.2.2.2 n P env
+      intro hc
+      cases op <;> simp only [evalE] at hc <;>
+        first
+        | exact absurd rfl h.1
+        | exact absurd rfl h.2.1
+        | (repeat' split at hc
+           all_goals first
+             | (cases hc; done)
+             | exact ha hc
+             | exact hb hc
+             | (have := (evalBin_panic hc).1; rcases this with h' | h' <;> cases h'))
+  | call0 f => intro h; exact h.elim
+  | call1 f a => intro h; exact h.elim
+  | call2 f a b => intro h; exact h.elim
+  | call3 f a b c => intro h; exact h.elim
+
 theorem div_zero_faults (op : BinOp) (hop : op = .div ∨ op = .mod) (i : Int) (stk loc ar : List Val) :
     stepData (tokenOp op) (.int 0 :: .int i :: stk) loc ar = none := by
   rcases hop with rfl | rfl <;> simp [tokenOp, stepData, binInt, Val.toInt?]
@@ -455,6 +514,21 @@ theorem callS_fault {P : Prog} {C : Code} {cx : Ctx} {fuel : Nat} {σ : State} {
   rw [ctx_func htab] at hf
   exact Faults.of_reach hr (ihCS f vs { σ with pc := σ.pc + c.length, stack := vs ++ σ.stack } σ.stack hcall rfl hf hdep)
 
+/-- a call for two values whose Go evaluation panics. -/
+def Call2Fault (P : Prog) (C : Code) (fuel : Nat) : Prop :=
+  ∀ (f : String) (vs : List Val) (σ : State) (rest : List Val),
+    callF2 fuel P f vs = .panic → σ.stack = vs ++ rest →
+    C[σ.pc]? = some (.ins (.call (fnLabel P f))) → σ.frames.length + fuel < 1024 → Faults C σ
+
+theorem call2_fault {P : Prog} {C : Code} {cx : Ctx} {fuel : Nat} {σ : State} {c tail : Code} {f : String} {vs : List Val}
+    (htab : cx.funcs = funcTable P) (ihC2 : Call2Fault P C fuel)
+    (hp : Placed C σ.pc (c ++ [.ins (.call (cx.func f).1)] ++ tail))
+    (hr : Reach C σ { σ with pc := σ.pc + c.length, stack := vs ++ σ.stack })
+    (hcall : callF2 fuel P f vs = .panic) (hdep : σ.frames.length + fuel < 1024) : Faults C σ := by
+  have hf : C[σ.pc + c.length]? = some (.ins (.call (cx.func f).1)) := hp.left.right.head
+  rw [ctx_func htab] at hf
+  exact Faults.of_reach hr (ihC2 f vs { σ with pc := σ.pc + c.length, stack := vs ++ σ.stack } σ.stack hcall rfl hf hdep)
+
 theorem stmtFault_zero (P : Prog) (C : Code) (cx : Ctx) : StmtFault P C cx 0 := by
   intro s lp ls st env σ _ _ _ hex
   simp [exec] at hex
@@ -467,7 +541,8 @@ theorem stmtFault_succ (P : Prog) (C : Code) (cx : Ctx) (fuel : Nat)
     (hn : (labelsOf C).Nodup) (htab : cx.funcs = funcTable P)
     (ihE : ∀ sc env, ExprFault P C cx sc env fuel) (okE : ∀ sc env, ExprFOK P C cx sc env fuel)
     (ih : StmtFault P C cx fuel) (ok : StmtFOK P C cx fuel)
-    (ihL : LoopFault P C cx fuel) (ihSw : SwitchFault P C cx fuel) (ihCS : CallSFault P C fuel) : StmtFault P C cx (fuel + 1) := by
+    (ihL : LoopFault P C cx fuel) (ihSw : SwitchFault P C cx fuel) (ihCS : CallSFault P C fuel) (ihC2 : Call2Fault P C fuel) :
+    StmtFault P C cx (fuel + 1) := by
   intro s lp ls st env σ hal hinv hd hex hp hrel hwf hcnt hdep
   have hdep' : σ.frames.length + fuel < 1024 := by omega
   have hdI : Deepish lp st.scopes.length := hd.elim Deep.ish (·.2)
@@ -564,6 +639,129 @@ theorem stmtFault_succ (P : Prog) (C : Code) (cx : Ctx) (fuel : Nat)
       | overflow => rw [hv] at hex; simp at hex
       | stuck => rw [hv] at hex; simp at hex
       | timeout => rw [hv] at hex; simp at hex
+  | ret2 e1 e2 =>
+    simp only [Allowed] at hal
+    simp only [exec] at hex
+    simp only [compS] at hp
+    rcases hc2 : compE cx st.scopes e2 .val st.nl with ⟨c2, nl1⟩
+    rcases hc1 : compE cx st.scopes e1 .val nl1 with ⟨c1, nl2⟩
+    simp only [hc2, hc1] at hp
+    have hr0 := run_dropItems (C := C) (σ := σ) hinv.few hinv.stk hp.left.left.left
+    have hp2 : Placed C (σ.pc + (dropItems (totalSz lp)).length) (compE cx st.scopes e2 .val st.nl).1 := by
+      rw [hc2]; exact hp.left.left.right
+    have hp1 : Placed C (σ.pc + (dropItems (totalSz lp)).length + c2.length) (compE cx st.scopes e1 .val nl1).1 := by
+      rw [hc1]; exact hp.left.right.cast (by simp [Nat.add_assoc])
+    -- the VM evaluates e2 first
+    have f2 : evalE fuel P env e2 = .panic → Faults C σ := fun hw =>
+      Faults.of_reach hr0 ((ihE st.scopes env) e2 .val st.nl
+        { σ with pc := σ.pc + (dropItems (totalSz lp)).length, stack := σ.stack.drop (totalSz lp) } hw hp2 hrel hdep' (nj C))
+    cases hv : evalE fuel P env e1 with
+    | panic =>
+      -- Go stops at e1; the VM has evaluated e2 before: e1 cannot panic, or e2 is a boolean literal
+      rcases hal with hnp | hlit
+      · exact absurd hv (noPanic_eval e1 hnp fuel P env)
+      · have hw : ∃ w, evalE fuel P env e2 = .ok w := by
+          cases fuel with
+          | zero => simp [evalE] at hv
+          | succ n => cases e2 <;> simp only [IsBoolLit] at hlit <;> simp [evalE]
+        obtain ⟨w, hw⟩ := hw
+        have hr2 := (okE st.scopes env) e2 .val st.nl
+          { σ with pc := σ.pc + (dropItems (totalSz lp)).length, stack := σ.stack.drop (totalSz lp) } w hw hp2 hrel hdep'
+        rw [hc2] at hr2
+        simp only [Post] at hr2
+        exact Faults.of_reach (hr0.trans hr2) ((ihE st.scopes env) e1 .val nl1
+          { σ with pc := σ.pc + (dropItems (totalSz lp)).length + c2.length, stack := w :: σ.stack.drop (totalSz lp) } hv hp1 hrel hdep' (nj C))
+    | ok v =>
+      rw [hv] at hex
+      simp only at hex
+      cases hw : evalE fuel P env e2 with
+      | panic => exact f2 hw
+      | ok w => rw [hw] at hex; simp at hex
+      | overflow => rw [hw] at hex; simp at hex
+      | stuck => rw [hw] at hex; simp at hex
+      | timeout => rw [hw] at hex; simp at hex
+    | overflow => rw [hv] at hex; simp at hex
+    | stuck => rw [hv] at hex; simp at hex
+    | timeout => rw [hv] at hex; simp at hex
+  | define2 x y e =>
+    cases e with
+    | call0 f =>
+      simp only [exec] at hex
+      simp only [compS, compE, withMode] at hp
+      cases hc : callF2 fuel P f [] with
+      | panic => exact call2_fault (c := []) (vs := []) htab ihC2 (by simpa [List.append_assoc] using hp) (by simpa using Reach.refl C σ) hc hdep'
+      | ok u => rw [hc] at hex; simp [declare2] at hex
+      | overflow => rw [hc] at hex; simp [declare2] at hex
+      | stuck => rw [hc] at hex; simp [declare2] at hex
+      | timeout => rw [hc] at hex; simp [declare2] at hex
+    | call1 f a =>
+      simp only [exec] at hex
+      simp only [compS, compE, withMode] at hp
+      cases hx : evalE fuel P env a with
+      | ok xa =>
+        rw [hx] at hex
+        simp only at hex
+        have ra := (okE st.scopes env) a .val st.nl σ xa hx hp.left.left.left.left hrel hdep'
+        simp only [Post] at ra
+        cases hc : callF2 fuel P f [xa] with
+        | panic => exact call2_fault (vs := [xa]) htab ihC2 (by simpa [List.append_assoc] using hp) (by simpa using ra) hc hdep'
+        | ok u => rw [hc] at hex; simp [declare2] at hex
+        | overflow => rw [hc] at hex; simp [declare2] at hex
+        | stuck => rw [hc] at hex; simp [declare2] at hex
+        | timeout => rw [hc] at hex; simp [declare2] at hex
+      | panic => exact (ihE st.scopes env) a .val st.nl σ hx hp.left.left.left.left hrel hdep' (nj C)
+      | overflow => rw [hx] at hex; simp at hex
+      | stuck => rw [hx] at hex; simp at hex
+      | timeout => rw [hx] at hex; simp at hex
+    | call2 f a b =>
+      simp only [exec] at hex
+      simp only [compS, compE, withMode, emitReverse] at hp
+      rcases hca : compE cx st.scopes a .val st.nl with ⟨ca, nl1⟩
+      rcases hcb : compE cx st.scopes b .val nl1 with ⟨cb, nl2⟩
+      simp only [hca, hcb] at hp
+      have hpa : Placed C σ.pc ca := hp.left.left.left.left.left.left
+      have hpb : Placed C (σ.pc + ca.length) cb := hp.left.left.left.left.left.right
+      cases hx : evalE fuel P env a with
+      | ok xa =>
+        rw [hx] at hex
+        simp only at hex
+        have ra := (okE st.scopes env) a .val st.nl σ xa hx (by rw [hca]; exact hpa) hrel hdep'
+        rw [hca] at ra
+        simp only [Post] at ra
+        cases hy : evalE fuel P env b with
+        | ok yb =>
+          rw [hy] at hex
+          simp only at hex
+          have rb := (okE st.scopes env) b .val nl1 { σ with pc := σ.pc + ca.length, stack := xa :: σ.stack } yb hy
+            (by rw [hcb]; exact hpb) hrel hdep'
+          rw [hcb] at rb
+          simp only [Post] at rb
+          cases hc : callF2 fuel P f [xa, yb] with
+          | panic =>
+            have hsw := run_data (C := C) (σ := { σ with pc := σ.pc + ca.length + cb.length, stack := yb :: xa :: σ.stack })
+              (op := .swap) (stk := xa :: yb :: σ.stack) (loc := σ.locals) (ar := σ.args)
+              ((hp.left.left.left.left.right.cast (by simp [Nat.add_assoc])).head) rfl (by simp [stepData])
+            have hr : Reach C σ { σ with pc := σ.pc + (ca ++ cb ++ [Item.ins Op.swap]).length, stack := [xa, yb] ++ σ.stack } := by
+              refine ra.trans (rb.trans (hsw.trans ?_))
+              simp [Nat.add_assoc]
+              exact Reach.refl _ _
+            exact call2_fault (c := ca ++ cb ++ [Item.ins Op.swap]) (vs := [xa, yb]) htab ihC2
+              (by simpa [List.append_assoc] using hp) hr hc hdep'
+          | ok u => rw [hc] at hex; simp [declare2] at hex
+          | overflow => rw [hc] at hex; simp [declare2] at hex
+          | stuck => rw [hc] at hex; simp [declare2] at hex
+          | timeout => rw [hc] at hex; simp [declare2] at hex
+        | panic =>
+          exact Faults.of_reach ra ((ihE st.scopes env) b .val nl1 { σ with pc := σ.pc + ca.length, stack := xa :: σ.stack } hy
+            (by rw [hcb]; exact hpb) hrel hdep' (nj C))
+        | overflow => rw [hy] at hex; simp at hex
+        | stuck => rw [hy] at hex; simp at hex
+        | timeout => rw [hy] at hex; simp at hex
+      | panic => exact (ihE st.scopes env) a .val st.nl σ hx (by rw [hca]; exact hpa) hrel hdep' (nj C)
+      | overflow => rw [hx] at hex; simp at hex
+      | stuck => rw [hx] at hex; simp at hex
+      | timeout => rw [hx] at hex; simp at hex
+    | _ => simp [Allowed, IsCall2] at hal
   | brk => simp [exec] at hex
   | cont => simp [exec] at hex
   | inc x =>
@@ -1041,6 +1239,8 @@ theorem stmtFault_succ (P : Prog) (C : Code) (cx : Ctx) (fuel : Nat)
     | panicS e => simp [Allowed] at hal
     | ite c t k e => simp [Allowed] at hal
     | ret e => simp [Allowed] at hal
+    | ret2 e1 e2 => simp [Allowed] at hal
+    | define2 x y e => simp [Allowed] at hal
     | brk => simp [Allowed] at hal
     | cont => simp [Allowed] at hal
     | block b => simp [Allowed] at hal
@@ -1856,9 +2056,10 @@ theorem callFault_succ {P : Prog} {C : Code} {fuel : Nat} (hpc : ProgCode C P)
         rw [hex] at hc
         cases out with
         | ret r =>
-          cases r with
-          | some v' => simp only at hc; split at hc <;> cases hc
-          | none => simp at hc
+          match r, hc with
+          | [v'], hc => simp only at hc; split at hc <;> cases hc
+          | [], hc => simp at hc
+          | _ :: _ :: _, hc => simp at hc
         | norm e => simp at hc
         | brk l e => simp at hc
         | cont l e => simp at hc
@@ -1886,11 +2087,41 @@ theorem callSFault_succ {P : Prog} {C : Code} {fuel : Nat} (hpc : ProgCode C P)
       | ok out =>
         rw [hex] at hc
         cases out with
-        | ret r =>
-          cases r with
-          | some v' => simp only at hc; split at hc <;> cases hc
-          | none => simp only at hc; split at hc <;> cases hc
+        | ret r => simp only at hc; split at hc <;> cases hc
         | norm e => simp only at hc; split at hc <;> cases hc
+        | brk l e => simp at hc
+        | cont l e => simp at hc
+      | overflow => rw [hex] at hc; simp at hc
+      | stuck => rw [hex] at hc; simp at hc
+      | timeout => rw [hex] at hc; simp at hc
+    · have hne : (d.params.length != vs.length) = true := by simpa using hlen
+      simp [hne] at hc
+
+theorem call2Fault_succ {P : Prog} {C : Code} {fuel : Nat} (hpc : ProgCode C P)
+    (ihS : ∀ cx : Ctx, cx.funcs = funcTable P → StmtFault P C cx fuel) (hall : ∀ d ∈ P, Allowed [] d.body) :
+    Call2Fault P C (fuel + 1) := by
+  intro f vs σ rest hc hs hf hdep
+  simp only [callF2] at hc
+  cases hfind : P.find f with
+  | none => rw [hfind] at hc; simp at hc
+  | some d =>
+    rw [hfind] at hc
+    simp only at hc
+    by_cases hlen : d.params.length = vs.length
+    · have hne : (d.params.length != vs.length) = false := by simp [hlen]
+      simp only [hne, Bool.false_eq_true, if_false] at hc
+      cases hex : exec fuel P { frames := [[]], args := d.params.zip vs } (.block d.body) with
+      | panic => exact call_run_fault hpc ihS hall hfind hlen hex hs hf hdep
+      | ok out =>
+        rw [hex] at hc
+        cases out with
+        | ret r =>
+          match r, hc with
+          | [v', w'], hc => simp only at hc; split at hc <;> cases hc
+          | [], hc => simp at hc
+          | [_], hc => simp at hc
+          | _ :: _ :: _ :: _, hc => simp at hc
+        | norm e => simp at hc
         | brk l e => simp at hc
         | cont l e => simp at hc
       | overflow => rw [hex] at hc; simp at hc
@@ -1910,6 +2141,7 @@ structure AllFault (P : Prog) (C : Code) (fuel : Nat) : Prop where
   switch : ∀ cx : Ctx, cx.funcs = funcTable P → SwitchFault P C cx fuel
   call : CallFault P C fuel
   callS : CallSFault P C fuel
+  call2 : Call2Fault P C fuel
 
 theorem allFault {P : Prog} {C : Code} (hpc : ProgCode C P) (hall : ∀ d ∈ P, Allowed [] d.body) :
     ∀ fuel, AllFault P C fuel := by
@@ -1918,17 +2150,18 @@ theorem allFault {P : Prog} {C : Code} (hpc : ProgCode C P) (hall : ∀ d ∈ P,
   | zero =>
     refine ⟨fun cx sc env _ => exprFault_zero P C cx sc env, fun cx _ => stmtFault_zero P C cx, fun cx _ => iterFault_zero P C cx,
       fun cx _ => loopFault_zero P C cx, fun cx _ => bodyFault_zero P C cx, fun cx _ => casesFault_zero P C cx,
-      fun cx _ => switchFault_zero P C cx, ?_, ?_⟩
+      fun cx _ => switchFault_zero P C cx, ?_, ?_, ?_⟩
     · intro f vs σ rest hc; simp [callF] at hc
     · intro f vs σ rest hc; simp [callS] at hc
+    · intro f vs σ rest hc; simp [callF2] at hc
   | succ n ih =>
     have ok := allOK hpc hall n
-    refine ⟨?_, ?_, ?_, ?_, ?_, ?_, ?_, callFault_succ hpc ih.stmt hall, callSFault_succ hpc ih.stmt hall⟩
+    refine ⟨?_, ?_, ?_, ?_, ?_, ?_, ?_, callFault_succ hpc ih.stmt hall, callSFault_succ hpc ih.stmt hall, call2Fault_succ hpc ih.stmt hall⟩
     · intro cx sc env htab
       exact exprFault_succ P C cx sc env n hpc.nodup htab (ih.expr cx sc env htab) (ok.expr cx sc env htab) ih.call
     · intro cx htab
       exact stmtFault_succ P C cx n hpc.nodup htab (fun sc env => ih.expr cx sc env htab) (fun sc env => ok.expr cx sc env htab)
-        (ih.stmt cx htab) (ok.stmt cx htab) (ih.loop cx htab) (ih.switch cx htab) ih.callS
+        (ih.stmt cx htab) (ok.stmt cx htab) (ih.loop cx htab) (ih.switch cx htab) ih.callS ih.call2
     · intro cx htab
       exact iterFault_succ P C cx n hpc.nodup (fun sc env => ih.expr cx sc env htab) (fun sc env => ok.expr cx sc env htab)
         (ih.stmt cx htab) (ok.stmt cx htab) (ih.iter cx htab)
@@ -1996,9 +2229,10 @@ theorem entry_fault {P : Prog} {C : Code} (hpc : ProgCode C P) (hall : ∀ d ∈
           rw [hex] at hrun
           cases out with
           | ret r =>
-            cases r with
-            | none => simp at hrun
-            | some v' => simp only at hrun; split at hrun <;> cases hrun
+            match r, hrun with
+            | [], hrun => simp at hrun
+            | _ :: _ :: _, hrun => simp at hrun
+            | [v'], hrun => simp only at hrun; split at hrun <;> cases hrun
           | norm e => simp at hrun
           | brk l e => simp at hrun
           | cont l e => simp at hrun
